@@ -13,7 +13,7 @@ import Mathlib.Algebra.CharZero.Defs
 
 namespace C03
 set_option linter.unusedSectionVars false
-variable {K : Type} [Field K] [CharZero K]
+variable {K : Type} [Field K] [LinearOrder K] [CharZero K]
 
 /-- U as the code defines it from (W, H, h). -/
 abbrev U (W H h : K) : K := Gen.h_to_u_U W H h
@@ -150,6 +150,18 @@ theorem agg_area_chen (t0 t1 t2 W00 W01 H00 H01 A000 A001 A010 A011 W10 W11 H10 
       = A011 + A111 := by
   refine ⟨?_, ?_, ?_, ?_⟩ <;>
     simp only [Gen.agg2A_A_0_0_1, Gen.agg2A_A_0_1_0, Gen.agg2A_A_0_0_0, Gen.agg2A_A_0_1_1] <;> ring
+
+/-- three stored pieces: the returned area is the Chen fold over ALL pairs of pieces (cross terms between
+non-adjacent pieces included): `Σ Aᵢ + ½ Σ_{i<j} (Wᵢ ⊗ Wⱼ − Wⱼ ⊗ Wᵢ)`. -/
+theorem agg3_area_chen (t0 t1 t2 t3 W00 W01 H00 H01 A000 A001 A010 A011 W10 W11 H10 H11 A100 A101 A110 A111 W20 W21 H20 H21 A200 A201 A210 A211 T0 T1 : K) :
+    Gen.agg3A_A_0_0_1 t0 t1 t2 t3 W00 W01 H00 H01 A000 A001 A010 A011 W10 W11 H10 H11 A100 A101 A110 A111 W20 W21 H20 H21 A200 A201 A210 A211 T0 T1
+      = A001 + A101 + A201
+        + (1 / 2) * ((W00 * W11 - W10 * W01) + (W00 * W21 - W20 * W01) + (W10 * W21 - W20 * W11)) ∧
+    Gen.agg3A_A_0_1_0 t0 t1 t2 t3 W00 W01 H00 H01 A000 A001 A010 A011 W10 W11 H10 H11 A100 A101 A110 A111 W20 W21 H20 H21 A200 A201 A210 A211 T0 T1
+      = A010 + A110 + A210
+        + (1 / 2) * ((W01 * W10 - W11 * W00) + (W01 * W20 - W21 * W00) + (W11 * W20 - W21 * W10)) ∧
+    Gen.agg3A_W_0_0 t0 t1 t2 t3 W00 W01 H00 H01 A000 A001 A010 A011 W10 W11 H10 H11 A100 A101 A110 A111 W20 W21 H20 H21 A200 A201 A210 A211 T0 T1 = W00 + W10 + W20 := by
+  refine ⟨?_, ?_, ?_⟩ <;> simp only [Gen.agg3A_A_0_0_1, Gen.agg3A_A_0_1_0, Gen.agg3A_W_0_0] <;> ring
 
 theorem agg_area_antisymm (t0 t1 t2 W00 W01 H00 H01 A000 A001 A010 A011 W10 W11 H10 H11 A100 A101 A110 A111 T0 T1 : K)
     (h0 : A001 = -A010) (h1 : A101 = -A110) :
